@@ -5,6 +5,7 @@
 package c16
 
 import (
+	"encoding/json"
 	"fmt"
 	"math/rand"
 	"reflect"
@@ -507,6 +508,56 @@ func beyondFloat(v reflect.Value) bool {
 	return false
 }
 
+// leafFromMap builds a Leaf the way the reflective recomposer reads one (keys by tag, exact or lower-cased
+// field name; numbers of any width).
+func leafFromMap(m map[string]any) (any, error) {
+	l := &Leaf{}
+	get := func(keys ...string) (any, bool) {
+		for _, k := range keys {
+			if v, ok := m[k]; ok {
+				return v, true
+			}
+		}
+		return nil, false
+	}
+	num := func(v any) float64 {
+		switch t := v.(type) {
+		case int64:
+			return float64(t)
+		case int:
+			return float64(t)
+		case float64:
+			return t
+		case float32:
+			return float64(t)
+		case json.Number:
+			f, _ := t.Float64()
+			return f
+		}
+		return 0
+	}
+	if v, ok := get("a", "LeafA", "leafA", "leafa"); ok && v != nil {
+		switch t := v.(type) {
+		case int64:
+			l.LeafA = t // exact (a float64 cannot carry every int64)
+		case int:
+			l.LeafA = int64(t)
+		default:
+			l.LeafA = int64(num(v))
+		}
+	}
+	if v, ok := get("b", "LeafB", "leafB", "leafb"); ok && v != nil {
+		l.LeafB = float32(num(v))
+	}
+	if v, ok := get("c", "LeafC", "leafC", "leafc"); ok && v != nil {
+		if cm, isMap := v.(map[string]any); isMap {
+			sub, _ := leafFromMap(cm)
+			l.LeafC = sub.(*Leaf)
+		}
+	}
+	return l, nil
+}
+
 // ---- routes ----
 
 type outcome struct {
@@ -641,6 +692,17 @@ func (ck *checker) one(st reflect.Type, pv reflect.Value, label string) {
 		c.Violation("alt.Recomposer.Recompose", "error-on-own-decomposition", faultClass(o0.err)+"/"+cls, cs, want, o0.err+" :: data="+clip(fmt.Sprint(data)))
 	case o0.text != want:
 		c.Violation("alt.Recomposer.Recompose", "round-trip-differs", diffClass(want, o0.text)+"/"+cls, cs, clip(want), clip(o0.text))
+	}
+	// a recomposer whose Leaf values are built by a registered compose function instead of reflection: the
+	// outcome must be the same (the function mirrors the reflective reading of Leaf)
+	if strings.Contains(want, "Leaf{") && ck.optR.Intn(4) == 0 {
+		c.Cover("history:compose-function")
+		rf, _ := alt.NewRecomposer(createKey, map[any]alt.RecomposeFunc{&Leaf{}: leafFromMap})
+		of := recomposeOn(rf, dupData(data), st)
+		c.Eval(1)
+		if !of.same(o0) {
+			c.Violation("alt.Recomposer.Recompose", "compose-function-changes-outcome", faultClass(of.String())+"/"+cls, cs, "as by reflection: "+clip(o0.String()), clip(of.String()))
+		}
 	}
 	// histories: shared recomposer of this process, and the default recomposer
 	c.Cover("history:shared")
